@@ -271,6 +271,54 @@ def build(run):
                     run.add(f"{fw}/{cn}/handlers[{','.join(hs)}]+handler-named-after-the-late-type/via-map_expr_dag",
                             cell(fw, cn, hs, "map_expr_dag", dedicated=True), kind="values")
 
+    # ---- algorithm class HIERARCHIES: a derived algorithm class adds handlers its base lacks (one named after a late type, one for `sum`); the derived
+    # class dispatches by ITS OWN handlers whatever the history of its base class (base used before / after the registration, derived class first / last)
+    def hierarchy(framework, history):
+        def thunk():
+            res = {fl: reserve(fl) for fl in ("term", "op", "sumchild")}
+            base_handlers = ("expr", "terminal")
+            P = make_alg(framework, base_handlers)
+            late_names = tuple(hn for _, hn in res.values())
+            ns = {}
+            for name in late_names + ("sum", "operator"):
+                ns[name] = (lambda nm: (lambda self, o: nm))(name)
+            S_ = type("Derived_" + P.__name__, (P,), ns)
+            handled_S = base_handlers + late_names + ("sum", "operator")
+            news = []
+            live = {}
+            for step in history:
+                if step == "R":
+                    news = [register_new_type(fl, res[fl][0]) for fl in ("term", "op", "sumchild")]
+                elif step == "P":
+                    live["P"] = P()
+                    for (T, mk) in news:
+                        apply(framework, live["P"], mk())
+                    for o in old_samples():
+                        apply(framework, live["P"], o)
+                elif step == "S":
+                    live["S"] = S_()
+            n = 0
+            for cname, cls, handled_ in (("derived", S_, handled_S), ("base", P, base_handlers)):
+                for inst in [cls()] + ([live[cname[0].upper()]] if cname[0].upper() in live else []):
+                    for (T, mk) in news:
+                        for o in [mk()] + old_samples():
+                            want = oracle(cls, type(o))
+                            n += 1
+                            try:
+                                got = apply(framework, inst, o)
+                            except (IndexError, TypeError, AttributeError, ValueError) as ex:
+                                return violated(f"{framework} hierarchy, history {history}: {cname} class applied to {type(o).__name__} failed with {type(ex).__name__}: {ex}",
+                                                replay={"history": history, "class": cname, "type": type(o).__name__}, reproduced=True, backend="exec")
+                            if got != want:
+                                return violated(f"{framework} hierarchy, history {history} (R = late types registered, P = base algorithm class used, S = derived class instantiated): "
+                                                f"the {cname} algorithm class sends {type(o).__name__} to handler {got!r}; by the nearest-ancestor rule over its own handlers it is {want!r}",
+                                                replay={"history": history, "class": cname, "type": type(o).__name__, "got": got, "want": want}, reproduced=True, backend="exec")
+            return proved("exec+oracle", vcs=n, sample=f"{framework} base/derived algorithm classes, history {history}: {n} (class, object, type) dispatches agree with the oracle")
+        return thunk
+    for fw in ("mf", "tr"):
+        for history in ("RPS", "RSP", "PRS", "PRPS", "SRP", "PSRP", "PSR", "SPRS"):
+            run.add(f"{fw}/algorithm-class-hierarchy/history-{history}", hierarchy(fw, history), kind="values")
+
     # ---- DAGTraverser (singledispatch): new subclass must reach nearest registered ancestor
     def dagt():
         from functools import singledispatchmethod
